@@ -358,7 +358,7 @@ def run(tier: str) -> int:
         if r.violated:
             ck.fail(f"LoaderCache.tla {r.violated} violated in the model", {"cfg": c, "tlc": r.out[-3000:]})
             continue
-        beh = _stratified(r.emitted, rnd, 2 if tier == "quick" else 60)
+        beh = _stratified(r.emitted, rnd, 2 if tier == "quick" else 16)
         kinds = (["fs", "choicefs"] if c["Detectable"] == "TRUE" else ["dict", "choice"])
         for bi, b in enumerate(beh):
             for k in kinds:
